@@ -334,7 +334,7 @@ def parse_matches(ans):
 
 
 def build(run, audit_file, allow=()):
-    coqtools.prove(run, ["theories/Sase/Props.vo"], audit_file, allow)
+    coqtools.prove(run, ["theories/Sase/Props.vo", "theories/Sase/Run.vo"], audit_file, allow)
     okb, bindir, blog = harness.build("vp-sase")
     if not okb:
         run.tie_broken("harness build vp-sase", blog[-3000:])
@@ -396,71 +396,199 @@ def ref_matches_no_all(prog, events):
         dead = False
         while k < len(steps) and j < len(events):
             ev = events[j]
-            if neg_hit(prog, ev, cap):
+            advances = key_of(prog, ev) == key and step_ok(steps[k], ev, cap)
+            # property text: no .not event *before* the completion -- the completing event itself does not count
+            if neg_hit(prog, ev, cap) and not (advances and k == len(steps) - 1):
                 dead = True
                 break
-            if key_of(prog, ev) == key and step_ok(steps[k], ev, cap):
+            if advances:
                 stack.append(j)
                 if steps[k]["alias"]:
                     cap[steps[k]["alias"]] = ev
                 k += 1
             j += 1
         if not dead and k == len(steps):
-            out[stack[-1]].append({"stack": stack, "cap": {a: ev["id"] for a, ev in cap.items()}})
+            capb = {a: ev for a, ev in cap.items() if ev["id"] != stack[-1]}
+            out[stack[-1]].append({"stack": stack, "cap": {a: ev["id"] for a, ev in cap.items()},
+                                   "completer_is_not_event": neg_hit(prog, events[stack[-1]], capb)})
+    return out
+
+
+def parses(prog, events, st):
+    """All ways of reading the stack (list of event indices) as an occurrence of the pattern: returns a list of
+    alias-binding histories [(event index, alias)], one per successful parse. Non-all steps take exactly one
+    event, `all` steps one or more; each event must have its step's type and satisfy the step filter under the
+    captures made before it."""
+    steps = prog["steps"]
+    out = []
+
+    def go(si, pos, cap, hist, entered):
+        if pos == len(st):
+            if si == len(steps) - 1 and entered:
+                out.append(hist)
+            return
+        if si >= len(steps):
+            return
+        s = steps[si]
+        ev = events[st[pos]]
+        if step_ok(s, ev, cap):
+            cap2 = dict(cap)
+            if s["alias"]:
+                cap2[s["alias"]] = ev
+            h2 = hist + [(st[pos], s["alias"])]
+            if s["all"]:
+                go(si, pos + 1, cap2, h2, True)          # stay in the Kleene step
+            if pos + 1 == len(st):
+                go(si, pos + 1, cap2, h2, True)
+            else:
+                go(si + 1, pos + 1, cap2, h2, False) if not s["all"] else go_next(si, pos + 1, cap2, h2)
+
+    def go_next(si, pos, cap, hist):
+        # leave the Kleene step si (which has consumed at least one event) for step si+1
+        go2(si + 1, pos, cap, hist)
+
+    def go2(si, pos, cap, hist):
+        if si >= len(steps) or pos >= len(st):
+            return
+        s = steps[si]
+        ev = events[st[pos]]
+        if step_ok(s, ev, cap):
+            cap2 = dict(cap)
+            if s["alias"]:
+                cap2[s["alias"]] = ev
+            h2 = hist + [(st[pos], s["alias"])]
+            if pos + 1 == len(st):
+                if si == len(steps) - 1:
+                    out.append(h2)
+                return
+            if s["all"]:
+                go2(si, pos + 1, cap2, h2)
+            go2(si + 1, pos + 1, cap2, h2)
+
+    go2(0, 0, {}, [])
     return out
 
 
 def check_match_genuine(prog, events, m):
-    """C01: is the match's stack an occurrence of the pattern? returns list of problems"""
-    probs = []
+    """C01 judge for one reported match (stack = event ids in the order captured)."""
     st = m["stack"]
-    if any(b <= a for a, b in zip(st, st[1:])):
-        probs.append("stack not in arrival order: %s" % st)
-        return probs
-    if any(i < 0 or i >= len(events) for i in st):
+    if not st or any(i < 0 or i >= len(events) for i in st):
         return ["stack refers to unknown events: %s" % st]
-    steps = prog["steps"]
-    # parse stack against steps: non-all steps take exactly one event, all-steps one or more (greedy split tried in all ways)
-    def parse(si, pos, cap):
-        if si == len(steps):
-            return pos == len(st)
-        if pos >= len(st):
-            return False
-        s = steps[si]
-        ev = events[st[pos]]
-        if not step_ok(s, ev, cap):
-            return False
-        cap2 = dict(cap)
-        if s["alias"]:
-            cap2[s["alias"]] = ev
-        if parse(si + 1, pos + 1, cap2):
-            return True
-        if s["all"]:
-            return parse(si, pos + 1, cap2)
-        return False
-    if not parse(0, 0, {}):
-        probs.append("stack %s is not an occurrence of the pattern (type / filter / step order)" % st)
+    if any(b <= a for a, b in zip(st, st[1:])):
+        return ["stack not in arrival order: %s" % st]
+    hists = parses(prog, events, st)
+    if not hists:
+        return ["stack %s is not an occurrence of the pattern (step order / event type / step filter)" % st]
+    probs = []
     if prog["partition"] is not None:
         ks = {json.dumps(key_of(prog, events[i])) for i in st}
         if len(ks) > 1:
             probs.append("stack %s mixes partition values %s" % (st, sorted(ks)))
-    # .not clause strictly between first and last event
-    cap = {}
-    pos = 0
-    si = 0
-    for j in range(st[0], st[-1]):
-        # captures made by stack events up to and including index j
-        pass
-    capd = {}
-    stack_set = set(st)
-    # rebuild captures progressively: alias of the step each stack event belongs to is unknown for `all` splits;
-    # use the aliases reported in the match for events that are captured, otherwise step order without all
-    order = []
-    if not any(s["all"] for s in steps) and len(st) == len(steps):
-        order = [(i, s["alias"]) for i, s in zip(st, steps)]
-    for j in range(st[0] + 1, st[-1]):
-        capd = {a: events[i] for i, a in order if a and i < j}
-        if j not in stack_set and neg_hit(prog, events[j], capd):
-            if not any(n["pred"] is not None and n["pred"][0] != "cmp" for n in prog["negs"]) or order:
-                probs.append("event %d satisfies a .not clause between first (%d) and last (%d) event of the match" % (j, st[0], st[-1]))
+    if prog["negs"]:
+        inside = set(st)
+        # a .not event strictly between first and last event, judged under the captures made before it;
+        # the match is bad only if this holds for every way of reading the stack
+        def bad(h):
+            for j in range(st[0] + 1, st[-1]):
+                if j in inside:
+                    continue
+                cap = {}
+                for i, a in h:
+                    if i < j and a:
+                        cap[a] = events[i]
+                if neg_hit(prog, events[j], cap):
+                    return j
+            return None
+        hits = [bad(h) for h in hists]
+        if all(x is not None for x in hits):
+            probs.append("event %d satisfies a .not clause between the first (%d) and last (%d) event of the match %s" % (hits[0], st[0], st[-1], st))
     return probs
+
+
+# ------------------------------------------------------------ check driver
+def renumber(events):
+    return [{"id": i, "ty": e["ty"], "f": e["f"]} for i, e in enumerate(events)]
+
+
+def shrink_case(binpath, prog, events, fails):
+    """Drop events (then steps' filters) while `fails(prog, events, answer)` stays non-empty."""
+    def failing(p, evs):
+        ans = harness.run_jsonl(binpath, [prog_request(p, evs)])[0]
+        return ans, fails(p, evs, ans)
+    changed = True
+    while changed and len(events) > 1:
+        changed = False
+        for i in range(len(events) - 1, -1, -1):
+            cand = renumber(events[:i] + events[i + 1:])
+            _, f = failing(prog, cand)
+            if f:
+                events = cand
+                changed = True
+                break
+    ans, f = failing(prog, events)
+    return prog, events, ans, f
+
+
+def drive(run, binpath, cases, tag, judge, classify=None, contradicts=""):
+    """judge(prog, events, answer) -> list of failure strings (property violated by the implementation).
+    classify(prog, events, answer, failures) -> list of known-finding class ids."""
+    n_or = 0
+    n_corr = 0
+    for k, (prog, events, ans, si, sm) in enumerate(run_cases(run, binpath, cases, tag)):
+        nmatch = sum(len(e["matches"]) for e in ans.get("events", []))
+        key = json.dumps(describe(prog, events), sort_keys=True) if nmatch else None
+        run.case(key, sample=describe(prog, events) if k < 2 else None)
+        run.count("steps=%d" % len(prog["steps"]))
+        run.count("matches=%s" % ("0" if nmatch == 0 else "1" if nmatch == 1 else "2-5" if nmatch <= 5 else "6+"))
+        run.count("events=%d" % (len(events) // 4 * 4))
+        for s in prog["steps"]:
+            if s["all"]:
+                run.count("has_all")
+                break
+        if prog["negs"]:
+            run.count("has_not")
+        if prog["partition"]:
+            run.count("partitioned")
+        if prog["strategy"] != "drop" or prog["max_runs"] < 10000:
+            run.count("backpressure:%s" % (prog["strategy"] if not isinstance(prog["strategy"], tuple) else "sample"))
+        if si == "SLOW":
+            run.count("slow-case-skipped")
+            continue
+        fails = judge(prog, events, ans)
+        if fails:
+            n_or += 1
+            if n_or <= 4:
+                p2, e2, a2, f2 = shrink_case(binpath, prog, events, judge)
+                classes = classify(p2, e2, a2, f2) if classify else []
+                run.violation("; ".join(f2)[:700], dict(describe(p2, e2), implementation=a2, failures=f2, contradicts=contradicts), classes=classes)
+        if sm is not None and si != sm:
+            n_corr += 1
+            if n_corr <= 3:
+                run.tie_broken("correspondence Sase/Model.v vs sase.rs", json.dumps(describe(prog, events))[:1500] + "\n impl  " + si + "\n model " + sm)
+    run.extra["oracle_failures"] = n_or
+    run.extra["disagreements"] = n_corr
+
+
+def replay_case(run, path, judge):
+    r = json.load(open(path))["replay"]
+    okb, bindir, blog = harness.build("vp-sase")
+    prog = r["program"]
+    if isinstance(prog["strategy"], list):
+        prog["strategy"] = tuple(prog["strategy"])
+    for s in prog["steps"] + prog["negs"]:
+        s["pred"] = _tup(s["pred"])
+    events = [{"id": e["id"], "ty": e["type"], "f": {k: tuple(v) for k, v in e["fields"].items()}} for e in r["events"]]
+    ans = harness.run_jsonl(os.path.join(bindir, "vp-sase"), [prog_request(prog, events)])[0]
+    fails = judge(prog, events, ans)
+    run.case(("replay", 1), describe(prog, events))
+    run.case(("replay", 2))
+    if fails:
+        run.violation("; ".join(fails)[:700], dict(describe(prog, events), implementation=ans, failures=fails))
+
+
+def _tup(p):
+    if p is None:
+        return None
+    if isinstance(p, list):
+        return tuple(_tup(x) for x in p)
+    return p
